@@ -42,6 +42,45 @@ type c02Case struct {
 	Det       []bool   `json:"det"`
 	Limit     int      `json:"limit"`
 	TimeoutMs int      `json:"timeout_ms"`
+	// head columns filled by collect / collect_distinct (predicate -> columns): the element
+	// order of such a list is not an observable, configurations that differ only there are
+	// put into one group (the group reports the facts of its first configuration)
+	SortCols map[string][]int `json:"sort_cols"`
+}
+
+// groupKey is the printed fact with the lists in the given columns sorted by printed form.
+func groupKey(a ast.Atom, cols []int) string {
+	if len(cols) == 0 {
+		return a.String()
+	}
+	var sb strings.Builder
+	sb.WriteString(a.Predicate.Symbol)
+	sb.WriteByte('(')
+	for i, t := range a.Args {
+		if i > 0 {
+			sb.WriteByte(',')
+		}
+		sorted := false
+		for _, c := range cols {
+			if c == i {
+				if k, ok := t.(ast.Constant); ok && k.Type == ast.ListShape {
+					var elems []string
+					k.ListValues(func(e ast.Constant) error {
+						elems = append(elems, e.String())
+						return nil
+					}, func() error { return nil })
+					sort.Strings(elems)
+					sb.WriteString("{" + strings.Join(elems, "\x01") + "}")
+					sorted = true
+				}
+			}
+		}
+		if !sorted {
+			sb.WriteString(t.String())
+		}
+	}
+	sb.WriteByte(')')
+	return sb.String()
 }
 
 type c02Group struct {
@@ -186,6 +225,10 @@ func newStore(kind string, pre []ast.Atom) (factstore.FactStore, error) {
 }
 
 func runOneConfig(info *analysis.ProgramInfo, kind string, det bool, pre []ast.Atom, limit int, timeout time.Duration) (g c02Group) {
+	return runOneConfigSorted(info, kind, det, pre, limit, timeout, nil)
+}
+
+func runOneConfigSorted(info *analysis.ProgramInfo, kind string, det bool, pre []ast.Atom, limit int, timeout time.Duration, sortCols map[string][]int) (g c02Group) {
 	store, err := newStore(kind, pre)
 	if err != nil {
 		return c02Group{Err: "harness", Msg: err.Error()}
@@ -222,9 +265,13 @@ func runOneConfig(info *analysis.ProgramInfo, kind string, det bool, pre []ast.A
 		return c02Group{Err: "timeout"}
 	}
 	seen := map[string]any{}
+	gkeys := []string{}
 	factstore.GetAllFacts(store, func(a ast.Atom) error {
 		if a.Predicate.IsInternalPredicate() {
 			return nil
+		}
+		if _, dup := seen[a.String()]; !dup {
+			gkeys = append(gkeys, groupKey(a, sortCols[a.Predicate.Symbol]))
 		}
 		seen[a.String()] = factJSON(a)
 		return nil
@@ -234,11 +281,20 @@ func runOneConfig(info *analysis.ProgramInfo, kind string, det bool, pre []ast.A
 		keys = append(keys, k)
 	}
 	sort.Strings(keys)
+	// two rules of one head can emit one collected list in two orders: one entry
+	sort.Strings(gkeys)
+	gk := gkeys[:0]
+	for i, k := range gkeys {
+		if i == 0 || k != gkeys[i-1] {
+			gk = append(gk, k)
+		}
+	}
+	gkeys = gk
 	facts := make([]any, len(keys))
 	for i, k := range keys {
 		facts[i] = seen[k]
 	}
-	return c02Group{Facts: facts, key: strings.Join(keys, "\n")}
+	return c02Group{Facts: facts, key: strings.Join(gkeys, "\n")}
 }
 
 func runC02(in json.RawMessage) (any, error) {
@@ -310,7 +366,7 @@ func runC02(in json.RawMessage) (any, error) {
 	out := c02Out{Stage: "ok"}
 	for _, kind := range c.Stores {
 		for _, det := range c.Det {
-			g := runOneConfig(info, kind, det, pre, c.Limit, time.Duration(c.TimeoutMs)*time.Millisecond)
+			g := runOneConfigSorted(info, kind, det, pre, c.Limit, time.Duration(c.TimeoutMs)*time.Millisecond, c.SortCols)
 			name := kind
 			if det {
 				name += "/det"
